@@ -51,6 +51,9 @@ func (a *AggSender) VerifStartChecks(ctx context.Context, retryDelay time.Durati
 // VerifLastError is the last error recorded in the status object.
 func (a *AggSender) VerifLastError() string { return a.status.LastError }
 
+// VerifClearLastError resets the recorded error, so that the caller can tell whether the next iteration reported one.
+func (a *AggSender) VerifClearLastError() { a.status.SetLastError(nil) }
+
 // VerifLoopOnce runs exactly one iteration of sendCertificates. With statusTick the periodic status arm is
 // the one that fires (the caller leaves the epoch channel empty); otherwise the caller has queued one epoch.
 func (a *AggSender) VerifLoopOnce(ctx context.Context, statusTick bool) {
